@@ -161,8 +161,7 @@ Proof.
     rewrite in_ctyb_true by (apply in_cty_promote_nonneg; [assumption|lia]).
     rewrite Z.rem_mod_nonneg by lia. fold d. cbn [bind].
     (* << shift *)
-    rewrite c_shl_exact; rewrite ?promote_idem; try assumption; try lia.
-    2: { rewrite E16. lia. }
+    rewrite c_shl_exact; rewrite ?promote_idem; try assumption; try lia; try (rewrite ?E16; nia).
     cbn [bind].
     (* value / 10 *)
     unfold c_div. cbn [ty val fst snd]. rewrite common_i32_r by assumption.
